@@ -77,6 +77,7 @@ func (c05) Gen(r *rand.Rand, tier string, idx int) *core.Plan {
 	w["format"] = int64(r.IntN(2))
 	w["entry"] = int64(r.IntN(2))      // OCI or blob entry point
 	w["plugin"] = int64(r.IntN(3) / 2) // a verification plugin that owns trusted identity only
+	w["base"] = int64(r.IntN(3))       // strict / permissive / audit as the level the revocation action overrides
 	w["ctor"] = int64(r.IntN(2))       // NewVerifierWithOptions / the deprecated NewWithOptions
 	if r.IntN(12) == 0 {
 		p.Faults = append(p.Faults, rt.Fault{Task: 0, Op: "revocation.validate", Nth: r.IntN(int(w["rounds"])), Kind: "EIO"})
@@ -134,7 +135,8 @@ func (l c05) Exec(env *core.Env) *core.Result {
 		action := []string{"enforce", "log", "skip"}[w["action"]%3]
 		store := world.NewScriptedStore()
 		store.Put(storeType, "s", chain.Root().Cert)
-		v, err := buildVerifier(vcfg{level: "strict", override: map[string]string{"revocation": action}, stores: []string{storeType + ":s"}, store: store, validator: val, legacy: w["legacy"] == 1, mgr: mgr, ctor: w["ctor"]})
+		// the revocation action is an override on any of the three base levels
+		v, err := buildVerifier(vcfg{level: vLevels[w["base"]%3], override: map[string]string{"revocation": action}, stores: []string{storeType + ":s"}, store: store, validator: val, legacy: w["legacy"] == 1, mgr: mgr, ctor: w["ctor"]})
 		if err != nil {
 			res.Violate("HARNESS/verifier", "", "%v", err)
 			return
@@ -176,7 +178,7 @@ func (l c05) Exec(env *core.Env) *core.Result {
 			for _, r := range vector {
 				vs = append(vs, r.String())
 			}
-			key := fmt.Sprintf("round=%d n=%d vector=%v answer=%d short=%d injected=%v legacy=%d action=%s scheme=%d entry=%d plugin=%d", k, n, vs, answer, val.Short, injected, w["legacy"], action, w["scheme"], w["entry"], w["plugin"])
+			key := fmt.Sprintf("round=%d n=%d vector=%v answer=%d short=%d injected=%v legacy=%d action=%s scheme=%d entry=%d plugin=%d base=%d", k, n, vs, answer, val.Short, injected, w["legacy"], action, w["scheme"], w["entry"], w["plugin"], w["base"])
 			sim.Abstract(fmt.Sprint(key, val.Methods, verr == nil))
 			allGood := true
 			anyRevoked := false
